@@ -614,23 +614,35 @@ impl<'t, C: Ws> World<'t, C> {
             }
         }
         // (b) write failure exactly at this encode
-        let failing: Option<Coder<C>> = match &self.coder {
+        let mut failing: Vec<Coder<C>> = Vec::new();
+        match &self.coder {
             Coder::St(c) => {
                 let (mut bulk, state) = c.clone().into_raw_parts();
                 bulk.fail_write_in = Some(0);
                 bulk.sticky = true;
-                Some(Coder::St(AnsCoder::from_raw_parts(bulk, state)))
+                failing.push(Coder::St(AnsCoder::from_raw_parts(bulk, state)));
             }
             Coder::V(c) => {
-                // same content on a cursor with no room left
+                // same content on a cursor, and on a reversed cursor, with no room left
                 let (bulk, state) = c.clone().into_raw_parts();
                 let len = bulk.len();
-                Cursor::new_at_pos(bulk, len).ok().map(|cur| Coder::Cur(AnsCoder::from_raw_parts(cur, state)))
+                failing.push(Coder::Rev(AnsCoder::from_raw_parts(rev_cursor(&bulk, len), state)));
+                if let Ok(cur) = Cursor::new_at_pos(bulk, len) {
+                    failing.push(Coder::Cur(AnsCoder::from_raw_parts(cur, state)));
+                }
             }
-            _ => None,
+            _ => {}
+        }
+        // does this encode have to write a word at all?
+        let flush_needed = {
+            let mut probe = self.coder.clone_();
+            matches!(probe.enc(model, sym), EncRes::Ok) && probe.bulk_len() > pre_bulk.len()
         };
-        if let Some(mut c) = failing {
+        for mut c in failing {
             let res = c.enc(model, sym);
+            if flush_needed && res == EncRes::Ok && !matches!(self.coder, Coder::St(_)) {
+                viol!(ctx, "C09", "ans-write-on-full-sink-reported-success", "encode position {}: the sink has no room left, the encode must write a word, and it returned Ok (bulk now {:x?}, was {:x?})", self.n_enc, tail(&c.bulk_words()), tail(&pre_bulk));
+            }
             match res {
                 EncRes::Backend(_) => {
                     ctx.stats.hit("fault-write-failure-enumerated");
